@@ -109,7 +109,11 @@ def parse(path):
                 if k == "unit":
                     u["unit"] = v
                 elif k == "properties":
-                    u["properties"] = v.split()
+                    # `C03:panic` = this unit counts for C03 only with its totality obligations (no overflow, no index
+                    # out of bounds, no failed std precondition such as unwrap on None, termination) -- the clause
+                    # "never panics / terminates" of that property; its functional postconditions belong to the others
+                    u["properties"] = [x.split(":")[0] for x in v.split()]
+                    u["panic_only"] = [x.split(":")[0] for x in v.split() if x.endswith(":panic")]
                 elif k == "title":
                     u["title"] = v
                 elif k == "use":
@@ -230,6 +234,8 @@ def apply_edits(item, edits, twin_false=False):
                 if twin_false:
                     text = _with_false(text)
                 item.insert_at_signature(text)
+            elif where.startswith("after-loop:"):
+                item.insert_after_loop(int(where[11:]), text)
             elif where.startswith("loop-end:"):
                 item.insert_at_loop_end(int(where[9:]), text)
             elif where.startswith("loop:"):
